@@ -11,7 +11,33 @@ use serde_json::{json, Value as J};
 use std::cell::RefCell;
 use std::panic::{catch_unwind, AssertUnwindSafe};
 
+thread_local! {
+    /// the (got, want) diagnostic of the last error classified by `err_kind` (None unless it was an UnexpectedItem)
+    pub static LAST_DIAG: RefCell<Option<(&'static str, &'static str)>> = RefCell::new(None);
+    /// Display and Debug text of the last error classified by `err_kind`
+    pub static LAST_TEXT: RefCell<(String, String)> = RefCell::new((String::new(), String::new()));
+}
+
+pub fn last_text() -> (String, String) {
+    LAST_TEXT.with(|d| d.borrow().clone())
+}
+
+/// the diagnostic of the last classified error as JSON: [got, want] or []
+pub fn last_diag() -> J {
+    LAST_DIAG.with(|d| match *d.borrow() {
+        Some((g, w)) => json!([g, w]),
+        None => json!([]),
+    })
+}
+
 pub fn err_kind(e: &CoseError) -> &'static str {
+    LAST_TEXT.with(|d| *d.borrow_mut() = (format!("{}", e), format!("{:?}", e)));
+    LAST_DIAG.with(|d| {
+        *d.borrow_mut() = match e {
+            CoseError::UnexpectedItem(g, w) => Some((*g, *w)),
+            _ => None,
+        }
+    });
     match e {
         CoseError::DecodeFailed(_) => "DecodeFailed",
         CoseError::DuplicateMapKey => "DuplicateMapKey",
@@ -291,13 +317,16 @@ pub fn decode_bstr(b: &[u8]) -> Dec {
 }
 
 pub fn obs_base() -> J {
-    json!({"kind": "ok", "err": "", "bytes": [], "cb": [], "ret": [], "val": []})
+    json!({"kind": "ok", "err": "", "diag": [], "bytes": [], "cb": [], "ret": [], "val": []})
 }
 
 fn obs_err(k: &str) -> J {
     let mut o = obs_base();
     o["kind"] = json!("err");
     o["err"] = json!(k);
+    if k == "UnexpectedItem" {
+        o["diag"] = last_diag();
+    }
     o
 }
 
